@@ -63,6 +63,27 @@ class ObjAB(ObjA):
         return 2
 
 
+# exported classes that declare the standard ObjectManager interface themselves (ported services do, to name its signals
+# or out of habit) - one only declares it, the other also brings an implementation over a private, empty registry.  The
+# tree a remote peer sees is the connection's export table all the same.
+IFACE_OM = I.DBusInterface('org.freedesktop.DBus.ObjectManager', I.Method('GetManagedObjects', returns='a{oa{sa{sv}}}'),
+                           I.Signal('InterfacesAdded', 'oa{sa{sv}}'), I.Signal('InterfacesRemoved', 'oas'), noRegister=True)
+
+
+class ObjAM(ObjA):
+    dbusInterfaces = [IFACE_OM]
+
+
+class ObjABM(ObjAB):
+    dbusInterfaces = [IFACE_OM]
+
+    def dbus_GetManagedObjects(self):
+        return {}
+
+
+DECLARE_MANAGER = [False]
+
+
 def children_of(path, exported):
     pre = path if path.endswith('/') else path + '/'
     out = set()
@@ -250,7 +271,11 @@ def apply_op(ctx, world, op, hist, case):
         if len(hist) % 2:
             world.peer.ep.t.on_event = on_added
         try:
-            obj = (ObjAB if objkind == 'AB' else ObjA)(path)
+            if DECLARE_MANAGER[0]:
+                obj = (ObjABM if objkind == 'AB' else ObjAM)(path)
+                ctx.count('exported_objects_declaring_the_manager_interface')
+            else:
+                obj = (ObjAB if objkind == 'AB' else ObjA)(path)
             world.conn.exportObject(obj)
         except Exception as e:
             ctx.report('export-raised', 'constructing / exporting a %s object at %s raised %r' % (objkind, path, e),
@@ -426,7 +451,12 @@ def run(ctx):
                 exported[op[1]] = op[2]
             else:
                 del exported[op[1]]
-        run_history(ctx, ops, True, {'kind': 'hist', 'ops': [list(o) for o in ops], 'every': True})
+        DECLARE_MANAGER[0] = i % 2 == 1
+        try:
+            run_history(ctx, ops, True, {'kind': 'hist', 'ops': [list(o) for o in ops], 'every': True,
+                                         'declare_manager': DECLARE_MANAGER[0]})
+        finally:
+            DECLARE_MANAGER[0] = False
         ctx.count('random_histories')
         if ctx.stop_early():
             break
@@ -467,4 +497,5 @@ def replay(ctx, rp):
         POOL = ['/a', '/a/a', '/a/ab', '/a/a/a', '/org', '/org/go', '/org/go/Thing', '/org/example/Root/toolbar',
                 '/org/example/Root', '/a/b', '/a/b/ba/d']
         OUTSIDE = ['/a/aa', '/org/g', '/o']
+    DECLARE_MANAGER[0] = bool(case.get('declare_manager'))
     run_history(ctx, [tuple(o) for o in case['ops']], case['every'], case)
